@@ -14,7 +14,7 @@ func NewState() *State {
 
 func NewStateFromSnapshot(snapshot *spacesyncproto.SpaceSettingsSnapshot, lastIteratedId string) *State {
 	st := NewState()
-	for _, id := range snapshot.DeletedIds {
+	for _, id := range snapshot.GetDeletedIds() {
 		st.DeletedIds[id] = struct{}{}
 	}
 	st.LastIteratedId = lastIteratedId
